@@ -42,6 +42,12 @@ const fn mul_add(mut ui_a: u16, mut ui_b: u16, mut ui_c: u16, op: MulAddType) ->
         };
     }
 
+    // a*b - c == a*b + (-c) and c - a*b == (-a)*b + c (negation is exact)
+    match op {
+        MulAddType::SubC => ui_c = ui_c.wrapping_neg(),
+        MulAddType::SubProd => ui_a = ui_a.wrapping_neg(),
+        MulAddType::Add => {}
+    }
     let sign_a = P16E1::sign_ui(ui_a);
     let sign_b = P16E1::sign_ui(ui_b);
     let sign_c = P16E1::sign_ui(ui_c); //^ (op == softposit_mulAdd_subC);
